@@ -9,6 +9,7 @@ import Proofs.DkgNonzero
 import Proofs.DkgJointAgree
 import Proofs.DkgJointEnd
 import Proofs.DkgEmit
+import Proofs.DkgAnswer
 import Driver.Dkg
 
 /-! # C07 — DKG: honest participants agree on the verdict and on consistent keys
@@ -380,7 +381,7 @@ open Proofs.DkgCommute Proofs.DkgAgree in
     of the polynomial it drew and, to every other participant `i`, the private message carrying `a(i+1)` -/
 theorem dealer_start_outputs (size threshold me : Nat) (seed : Bytes) (s' : St O) (outs : List Out)
     (h : Dkg.start ({ size := size, threshold := threshold, me := me, dealer := me } : St O) seed = (s', outs, .ok)) :
-    ∃ a, O.genPoly seed threshold = some a ∧ s'.vA = some (O.vecOfPoly size a) ∧
+    ∃ a, O.genPoly seed threshold = some a ∧ s'.a = a ∧ s'.vA = some (O.vecOfPoly size a) ∧
       Out.bcast (tagVerifVec :: O.vecBytes a) ∈ outs ∧
       ∀ i, i < size → i ≠ me → Out.send i (tagShare :: O.writeScalar (O.polyEval a (i + 1))) ∈ outs :=
   start_outputs size threshold me seed s' outs h
@@ -401,6 +402,26 @@ theorem receiver_accepts_dealer_emission (size threshold dealer rcv : Nat) (hne 
       .share (tagShare :: O.writeScalar (O.polyEval a (rcv + 1))) ∧
     AllowedK (honestOf size threshold a L rcv hr) t (.share (tagShare :: O.writeScalar (O.polyEval a (rcv + 1)))) :=
   emission_allowed size threshold dealer rcv hne hr a L hx ct t ht
+
+open Proofs.DkgCommute Proofs.DkgAgree in
+/-- **the dealer answers a first complaint at once** with the complainer's share of the polynomial it drew (the
+    emission behind the answer part `hans` of `OwnNet`) -/
+theorem dealer_answers_complaint (s : St O) (hmd : s.me = s.dealer) (hndq : s.disqualified = false)
+    (hct : s.complaintsTimeout = false) (hd : s.dealer < 256) (hds : s.dealer < s.size) (o : Nat) (hod : o ≠ s.dealer)
+    (hf : s.find o = none) :
+    stepOuts s (.bcast o (cmplMsg s.dealer)) =
+      [Out.bcast (tagAnswer :: UInt8.ofNat o :: O.writeScalar (O.polyEval s.a (o + 1)))] :=
+  dealer_answers s hmd hndq hct hd hds o hod hf
+
+open Proofs.DkgCommute Proofs.DkgAgree in
+/-- **and a receiver accepts that answer** as a valid answer for `o` (under `OpsLaws`, non-zero share) -/
+theorem receiver_accepts_dealer_answer (size threshold dealer rcv o : Nat) (hne : rcv ≠ dealer) (hr : rcv < size)
+    (ho : o < size) (ho256 : o < 256) (a : List Nat) (L : OpsLaws O size threshold a)
+    (hx : O.polyEval a (o + 1) ≠ 0) (ct : Bool) (t : St O) (ht : CfgCT (fresh O size threshold rcv dealer) ct t) :
+    classify t (.bcast dealer (tagAnswer :: UInt8.ofNat o :: O.writeScalar (O.polyEval a (o + 1)))) =
+      .ans o (some (O.polyEval a (o + 1))) ∧
+    AllowedK (honestOf size threshold a L rcv hr) t (.ans o (some (O.polyEval a (o + 1)))) :=
+  answer_allowed size threshold dealer rcv o hne hr ho ho256 a L hx ct t ht
 
 open Proofs.DkgCommute Proofs.DkgAgree in
 /-- the broadcasts of `A` an instance of another dealer ignores: everything but `A`'s complaint against that dealer -/
@@ -666,3 +687,5 @@ end Props.C07
 #print axioms Props.C07.joint_feldman_agreement
 #print axioms Props.C07.dealer_start_outputs
 #print axioms Props.C07.receiver_accepts_dealer_emission
+#print axioms Props.C07.dealer_answers_complaint
+#print axioms Props.C07.receiver_accepts_dealer_answer
